@@ -18,6 +18,13 @@ from .facts_mbox import MboxMixin
 from .facts_sweep import SweepMixin
 
 
+def outside_input_space(msg):
+    if isinstance(msg, dict) and msg.get("type") == "bind" and "client_version" in msg:
+        cv = msg["client_version"]
+        return not (isinstance(cv, (list, tuple)) and len(cv) >= 2)
+    return False
+
+
 class Tracker(CmdMixin, MboxMixin, SweepMixin, Monitor):
     def __init__(self, cfg, run_id="r"):
         self.cfg = cfg
@@ -158,7 +165,12 @@ class Tracker(CmdMixin, MboxMixin, SweepMixin, Monitor):
                 f8 = True
                 self.known_finding("F8", {"C06", "C17"}, st, {"cmd": st.msg.get("type"), "exc": st.exc,
                                                               "mailbox_stored_under_another_app": True})
-        if st.exc and st.kind in ("cmd", "connect", "drop") and not f8:
+        outside = st.kind == "cmd" and outside_input_space(st.msg)
+        if outside:
+            # a bind whose client_version is not the documented pair: whatever the server answers (today it fails
+            # internally) is not judged by any property; what it leaves behind for later commands is
+            self.dontcare["bind_with_malformed_client_version"] += 1
+        if st.exc and st.kind in ("cmd", "connect", "drop") and not f8 and not outside:
             # the command's own guarantee is broken too (close always completes, release is always answered, ...)
             own = {"close": "C08", "release": "C07", "claim": "C03", "open": "C01", "add": "C02", "allocate": "C04", "list": "C18"}
             t = st.msg.get("type") if isinstance(st.msg, dict) else None
